@@ -331,6 +331,9 @@ func TestCheck(t *testing.T) {
 	lookups := []struct{ ctx, md []byte }{
 		{[]byte("c"), lookedUp}, {[]byte("c"), nil}, {[]byte("d"), lookedUp}, {[]byte("d"), nil}, {[]byte{}, lookedUp}, {nil, nil},
 		{[]byte(binCtx), lookedUp}, {[]byte(strings.ToValidUTF8(binCtx, "\uFFFD")), lookedUp},
+		// lookups whose context ID and metadata, written one after the other,
+		// give the same bytes as an earlier lookup of this list ("c"+"m")
+		{[]byte("cm"), nil}, {[]byte{}, []byte("cm")}, {[]byte("c"), lookedUp},
 	}
 
 	run := func(rc rec) {
